@@ -75,6 +75,7 @@ SPPART = re.compile(r' sp=\S+(?: so=\d)?')
 def public_view(s):
     """what the Spec column predicts: public observables only"""
     s = HIDDEN.sub('', s)
+    s = re.sub(r' rpe=\S+', '', s)
     s = SPPART.sub('', s) if ' str=' not in s else re.sub(r' so=\d', '', s)
     s = re.sub(r'\bcp=\d ', '', s)
     s = re.sub(r'^ret=\d ', '', s)
@@ -110,7 +111,7 @@ def compare_line(op, cpp, lean):
         out.append(('hypothesis', 'an instance of an IDNA hypothesis of the theorems (%s) is false for ICU ToASCII at this host: the theorems that assume it do not cover this input' % impl[6:]))
     elif main != impl:
         if public_view(main) == public_view(impl) and re.sub(r' so=\d', '', SPPART.sub('', main)) != main:
-            out.append(('hidden', 'C++ %s | model %s' % (HIDDEN.findall(main) + SPPART.findall(main), HIDDEN.findall(impl) + SPPART.findall(impl))))
+            out.append(('hidden', 'C++ %s | model %s' % (HIDDEN.findall(main) + SPPART.findall(main) + re.findall(r' rpe=\S+', main), HIDDEN.findall(impl) + SPPART.findall(impl) + re.findall(r' rpe=\S+', impl))))
         else:
             out.append(('impl', 'C++ %s | model %s' % (main, impl)))
     if spec not in ('~', '') and not spec.startswith('live=') and public_view(main) != public_view(spec) and public_view(main) != spec:
@@ -305,7 +306,7 @@ def main():
 
     # ---- 2. lake build: theorems re-checked by the kernel
     modules = cfg['modules']
-    rc, out = lake_build(modules + ['driver'])
+    rc, out = lake_build(modules + ['driver', 'owngen'])
     obligations = {}
     if rc != 0:
         errs = re.findall(r'error: (\S+?\.lean):(\d+):\d+: (.*)', out)
@@ -313,7 +314,7 @@ def main():
         detail = 'lake build failed; broken proof obligations in: %s\n%s' % (', '.join(failing_mods), '\n'.join('%s:%s: %s' % e for e in errs[:20]))
         broken.append(detail)
         # the model driver may still build (it does not import Props): try it alone for the search
-        rc2, out2 = lake_build(['driver'])
+        rc2, out2 = lake_build(['driver', 'owngen'])
         if rc2 != 0:
             violations.append(('proof', ['# lake build'], detail + '\n' + out[-3000:], False))
             finish()
